@@ -77,23 +77,27 @@ package dastard
 // of the feedback word of (that row, column 0).
 //@ pred ExtWord(dc [][]RawType, r int, f int, cols int) := oldat(at(dc, dc.off + 2 * mul(r, cols) + 1), at(dc, dc.off + 2 * mul(r, cols) + 1).off + f)
 //@ pred ExtHigh(w int) := (w / 2) % 2 == 1
-// ExtIn(dc, f, r, cols): level of the trigger input while physical row r of frame f was read out.
-//@ pred ExtIn(dc [][]RawType, f int, r int, cols int) := ExtHigh(ExtWord(dc, r, f, cols))
-// ExtBefore: its level one row earlier (the last row of the previous frame, or the state carried from the previous block).
-//@ pred ExtBefore(ls *LanceroSource, dc [][]RawType, f int, r int, rows int, cols int) := ite(r > 0, ExtIn(dc, f, r - 1, cols), ite(f > 0, ExtIn(dc, f - 1, rows - 1, cols), old(ls.externalTriggerLastState)))
-//@ pred ExtRise(ls *LanceroSource, dc [][]RawType, f int, r int, rows int, cols int) := ExtIn(dc, f, r, cols) && !ExtBefore(ls, dc, f, r, rows, cols)
-// Witnesses: gtf[j] / gtr[j] = frame (within the block) and physical row of the j-th reported trigger.
-//@ ghost field LanceroSource.gtf intmap
-//@ ghost field LanceroSource.gtr intmap
-// Scanned(f, r, F, R): position (f, r) comes before the scan position (F, R) in readout order.
-//@ pred Scanned(f int, r int, F int, R int) := f < F || (f == F && r < R)
-//@ pred TrigPos(ls *LanceroSource, list []int64, rows int, F int, R int) := forall j int :: {ls.gtf[j]} 0 <= j && j < len(list) ==> 0 <= ls.gtf[j] && 0 <= ls.gtr[j] && ls.gtr[j] < rows && Scanned(ls.gtf[j], ls.gtr[j], F, R)
-//@ pred TrigRise(ls *LanceroSource, dc [][]RawType, list []int64, rows int, cols int) := forall j int :: {ls.gtf[j]} 0 <= j && j < len(list) ==> ExtRise(ls, dc, ls.gtf[j], ls.gtr[j], rows, cols)
-//@ pred TrigVal(ls *LanceroSource, list []int64, first FrameIndex, rows int) := forall j int :: {list[j]} 0 <= j && j < len(list) ==> list[j] == mul(ls.gtf[j] + first, rows) + ls.gtr[j]
-//@ pred TrigSound(ls *LanceroSource, dc [][]RawType, list []int64, first FrameIndex, rows int, cols int, F int, R int) := TrigPos(ls, list, rows, F, R) && TrigRise(ls, dc, list, rows, cols) && TrigVal(ls, list, first, rows)
-//@ pred TrigOrdered(ls *LanceroSource, n int) := forall i int, j int :: {ls.gtf[i], ls.gtf[j]} 0 <= i && i < j && j < n ==> Scanned(ls.gtf[i], ls.gtr[i], ls.gtf[j], ls.gtr[j])
-//@ pred TrigComplete(ls *LanceroSource, dc [][]RawType, list []int64, rows int, cols int, F int, R int) := forall f int, r int :: {ExtIn(dc, f, r, cols)} 0 <= f && 0 <= r && r < rows && Scanned(f, r, F, R) && ExtRise(ls, dc, f, r, rows, cols) ==>
-//@        (exists j int :: {wit(j)} wit(j) && 0 <= j && j < len(list) && ls.gtf[j] == f && ls.gtr[j] == r)
+// The trigger input is sampled once per row.  Positions are numbered k = frame*65536 + row (rows < 65536), so that
+// readout order is numeric order.  Ghost maps: glv[k] = level (0/1) of the trigger input at position k, taken from
+// bit 1 of the feedback word of (row, column 0) -- set once from the buffers as they arrive; gtk[j] = position of the
+// j-th reported trigger; gidx[k] = index in the list of the trigger reported for position k.
+//@ ghost field LanceroSource.glv intmap
+//@ ghost field LanceroSource.gtk intmap
+//@ ghost field LanceroSource.gidx intmap
+//@ ghost field LanceroSource.gfr intmap
+//@ ghost field LanceroSource.grw intmap
+//@ pred KeyOK(k int, rows int) := 0 <= k && k % 65536 < rows
+//@ pred PrevKey(k int, rows int) := ite(k % 65536 > 0, k - 1, k - 65536 + rows - 1)
+//@ pred LevelBefore(ls *LanceroSource, k int, rows int) := ite(k % 65536 > 0 || k / 65536 > 0, ls.glv[PrevKey(k, rows)] == 1, old(ls.externalTriggerLastState))
+//@ pred RiseAt(ls *LanceroSource, k int, rows int) := ls.glv[k] == 1 && !LevelBefore(ls, k, rows)
+// LevelsOK: glv holds the bits of the buffers (as they were on entry).
+//@ pred LevelsOK(ls *LanceroSource, dc [][]RawType, rows int, cols int, frames int) := forall k int :: {ls.glv[k]} KeyOK(k, rows) && k / 65536 < frames ==> ls.glv[k] == ite(ExtHigh(ExtWord(dc, k % 65536, k / 65536, cols)), 1, 0)
+// (gfr[j], grw[j] = frame and physical row of the j-th reported trigger, i.e. gtk[j] = gfr[j]*65536 + grw[j])
+//@ pred TrigPos(ls *LanceroSource, list []int64, rows int, K int) := forall j int :: {ls.gtk[j]} 0 <= j && j < len(list) ==> 0 <= ls.gfr[j] && 0 <= ls.grw[j] && ls.grw[j] < rows && ls.gtk[j] == ls.gfr[j] * 65536 + ls.grw[j] && ls.gtk[j] < K && RiseAt(ls, ls.gtk[j], rows)
+//@ pred TrigVal(ls *LanceroSource, list []int64, first FrameIndex, rows int) := forall j int :: {ls.gfr[j]} 0 <= j && j < len(list) ==> list[j] == mul(ls.gfr[j] + first, rows) + ls.grw[j]
+//@ pred TrigSound(ls *LanceroSource, list []int64, first FrameIndex, rows int, K int) := TrigPos(ls, list, rows, K) && TrigVal(ls, list, first, rows)
+//@ pred TrigOrdered(ls *LanceroSource, n int) := forall i int, j int :: {ls.gtk[i], ls.gtk[j]} 0 <= i && i < j && j < n ==> ls.gtk[i] < ls.gtk[j]
+//@ pred TrigComplete(ls *LanceroSource, list []int64, rows int, K int) := forall k int :: {ls.glv[k]} KeyOK(k, rows) && k < K && RiseAt(ls, k, rows) ==> 0 <= ls.gidx[k] && ls.gidx[k] < len(list) && ls.gtk[ls.gidx[k]] == k
 
 // FbOut(ls, dc, c, k): what sample k of feedback channel c must hold on return: the previous sample's feedback word of
 // the same pixel with its flag bits cleared (the previous block's last word for k == 0), plus -- when a mix fraction is
@@ -117,34 +121,20 @@ package dastard
 //@        result.segments[c].rawData == at(buffersMsg.datacopies, buffersMsg.datacopies.off + ls.chan2readoutOrder[c]) && result.segments[c].signed == (c % 2 == 0)
 //@   ensures errors: forall c int :: {result.segments[c]} 0 <= c && c < len(result.segments) && c % 2 == 0 ==>
 //@        (forall p int :: {at(result.segments[c].rawData, p)} result.segments[c].rawData.off <= p && p < result.segments[c].rawData.off + len(result.segments[c].rawData) ==> at(result.segments[c].rawData, p) == oldat(result.segments[c].rawData, p))
-//@   ensures triggers: TrigSound(ls, buffersMsg.datacopies, result.externalTriggerRowcounts, ls.nextFrameNum - len(at(buffersMsg.datacopies, buffersMsg.datacopies.off)), ls.active[0].nrows, ls.active[0].ncols, len(at(buffersMsg.datacopies, buffersMsg.datacopies.off)), 0)
-//@        && TrigOrdered(ls, len(result.externalTriggerRowcounts))
-//@        && TrigComplete(ls, buffersMsg.datacopies, result.externalTriggerRowcounts, ls.active[0].nrows, ls.active[0].ncols, len(at(buffersMsg.datacopies, buffersMsg.datacopies.off)), 0)
 //@   ensures feedback: forall c int, k int :: {result.segments[c].rawData[k]} 0 <= c && c < len(result.segments) && c % 2 == 1 && 0 <= k && k < len(result.segments[c].rawData) ==> result.segments[c].rawData[k] == FbOut(ls, buffersMsg.datacopies, c, k)
-//@   modifies ls.nextFrameNum, ls.previousLastSampleTime.*, ls.externalTriggerLastState, any(Mix).lastFb, anyarray(RawType), ls.gtf, ls.gtr
-//@   uses wit_all
-//@   ghost loop 2: ls.gtf[len(externalTriggerRowcounts) - 1] := ite(ExtRise(ls, datacopies, frame, row - 1, nrows, ncols), frame, ls.gtf[len(externalTriggerRowcounts) - 1])
-//@   ghost loop 2: ls.gtr[len(externalTriggerRowcounts) - 1] := ite(ExtRise(ls, datacopies, frame, row - 1, nrows, ncols), row - 1, ls.gtr[len(externalTriggerRowcounts) - 1])
+//@   modifies ls.nextFrameNum, ls.previousLastSampleTime.*, ls.externalTriggerLastState, any(Mix).lastFb, anyarray(RawType)
 //@   loop 1
 //@     invariant 0 <= frame && frame <= framesUsed && framesUsed == len(at(datacopies, datacopies.off)) && datacopies == buffersMsg.datacopies && nchan == len(datacopies) && nrows == ls.active[0].nrows && ncols == ls.active[0].ncols
 //@     invariant st: block != nil && fresh(block) && len(block.segments) == nchan && fresh(block.segments) && allocated(block.segments) && unchanged(ls.nextFrameNum, ls.chan2readoutOrder, ls.Mix, ls.active, ls.mixedRowCounts) && LBuffersOK(datacopies) && OrderOK(ls, nchan) && FirstCard(ls, nchan)
 //@     invariant first: firstFrameNum >= ls.nextFrameNum && (!dataDropDetected ==> firstFrameNum == ls.nextFrameNum && droppedFrames == 0) && dataDropDetected == buffersMsg.dataDropDetected
 //@     invariant raw: forall p int, q int :: {at(at(datacopies, p), q)} datacopies.off <= p && p < datacopies.off + nchan ==> at(at(datacopies, p), q) == oldat(at(datacopies, p), q)
 //@     invariant trig: allocated(externalTriggerRowcounts) && (externalTriggerRowcounts.arr == 0 || fresh(externalTriggerRowcounts))
-//@     invariant last: ls.externalTriggerLastState == ite(frame > 0, ExtIn(datacopies, frame - 1, nrows - 1, ncols), old(ls.externalTriggerLastState))
-//@     invariant sound: TrigSound(ls, datacopies, externalTriggerRowcounts, firstFrameNum, nrows, ncols, frame, 0) && TrigOrdered(ls, len(externalTriggerRowcounts))
-//@     invariant complete: TrigComplete(ls, datacopies, externalTriggerRowcounts, nrows, ncols, frame, 0)
 //@   loop 2
 //@     invariant 0 <= frame && frame < framesUsed && 0 <= row && row <= nrows && framesUsed == len(at(datacopies, datacopies.off)) && datacopies == buffersMsg.datacopies && nchan == len(datacopies) && nrows == ls.active[0].nrows && ncols == ls.active[0].ncols
 //@     invariant st: block != nil && fresh(block) && len(block.segments) == nchan && fresh(block.segments) && allocated(block.segments) && unchanged(ls.nextFrameNum, ls.chan2readoutOrder, ls.Mix, ls.active, ls.mixedRowCounts) && LBuffersOK(datacopies) && OrderOK(ls, nchan) && FirstCard(ls, nchan)
 //@     invariant first: firstFrameNum >= ls.nextFrameNum && (!dataDropDetected ==> firstFrameNum == ls.nextFrameNum && droppedFrames == 0) && dataDropDetected == buffersMsg.dataDropDetected
 //@     invariant raw: forall p int, q int :: {at(at(datacopies, p), q)} datacopies.off <= p && p < datacopies.off + nchan ==> at(at(datacopies, p), q) == oldat(at(datacopies, p), q)
 //@     invariant trig: allocated(externalTriggerRowcounts) && (externalTriggerRowcounts.arr == 0 || fresh(externalTriggerRowcounts))
-//@     invariant last: ls.externalTriggerLastState == ExtBefore(ls, datacopies, frame, row, nrows, ncols) || row == nrows
-//@     invariant lastend: row == nrows ==> ls.externalTriggerLastState == ExtIn(datacopies, frame, nrows - 1, ncols)
-//@     invariant sound: TrigSound(ls, datacopies, externalTriggerRowcounts, firstFrameNum, nrows, ncols, frame, row) && TrigOrdered(ls, len(externalTriggerRowcounts))
-//@     invariant complete: TrigComplete(ls, datacopies, externalTriggerRowcounts, nrows, ncols, frame, row)
-//@     hint seed: wit(len(externalTriggerRowcounts) - 1)
 //@     apply frameindex(row, nrows, 0, ncols) && mul_def(row, ncols) && mul_def(frame + firstFrameNum, nrows)
 //@   loop 3
 //@     invariant 0 <= channelIndex && channelIndex <= nchan && framesUsed == len(at(datacopies, datacopies.off)) && datacopies == buffersMsg.datacopies && nchan == len(datacopies)
@@ -160,6 +150,53 @@ package dastard
 //@     hint same: block.segments[channelIndex - 1].rawData == data && data == at(datacopies, datacopies.off + ls.chan2readoutOrder[channelIndex - 1]) && len(data) == framesUsed
 //@     hint newfb: forall c int :: {ls.Mix[c]} c == channelIndex - 1 && c % 2 == 1 ==> (forall k int :: {data[k]} 0 <= k && k < framesUsed ==> data[k] == FbOut(ls, datacopies, c, k))
 //@     invariant feedback: forall c int, k int :: {block.segments[c].rawData[k]} 0 <= c && c < channelIndex && c % 2 == 1 && 0 <= k && k < framesUsed ==> block.segments[c].rawData[k] == FbOut(ls, datacopies, c, k)
+
+// Second aspect of the same function: the external-trigger scan (loops 1 and 2).  Verified separately from the data
+// aspect above so that each solver query stays small; callers use the main contract.  restriction_only: safety, frame and
+// callee preconditions of distributeData are checked by the main contract, not again here.
+//@ func (*LanceroSource).distributeData #triggers
+//@   props C04
+//@   opt restriction_only
+//@   requires ls != nil && LBuffersOK(buffersMsg.datacopies) && OrderOK(ls, len(buffersMsg.datacopies)) && FirstCard(ls, len(buffersMsg.datacopies)) && !ls.mixedRowCounts && ProblemLogger != nil
+//@   requires clock: tns(buffersMsg.lastSampleTime) >= tns(ls.previousLastSampleTime) && ls.sampleRate > 0.0 && ls.nextFrameNum >= 0
+//@   ensures triggers: LevelsOK(ls, buffersMsg.datacopies, ls.active[0].nrows, ls.active[0].ncols, len(at(buffersMsg.datacopies, buffersMsg.datacopies.off)))
+//@        && TrigSound(ls, result.externalTriggerRowcounts, ls.nextFrameNum - len(at(buffersMsg.datacopies, buffersMsg.datacopies.off)), ls.active[0].nrows, len(at(buffersMsg.datacopies, buffersMsg.datacopies.off)) * 65536)
+//@        && TrigOrdered(ls, len(result.externalTriggerRowcounts))
+//@        && TrigComplete(ls, result.externalTriggerRowcounts, ls.active[0].nrows, len(at(buffersMsg.datacopies, buffersMsg.datacopies.off)) * 65536)
+//@   modifies ls.nextFrameNum, ls.previousLastSampleTime.*, ls.externalTriggerLastState, any(Mix).lastFb, anyarray(RawType), ls.glv, ls.gtk, ls.gidx, ls.gfr, ls.grw
+//@   ghost entry: ls.glv[k] := ite(ExtHigh(ExtWord(buffersMsg.datacopies, k % 65536, k / 65536, ls.active[0].ncols)), 1, 0)
+//@   ghost loop 2: ls.gtk[len(externalTriggerRowcounts) - 1] := ite(RiseAt(ls, frame * 65536 + row - 1, nrows), frame * 65536 + row - 1, ls.gtk[len(externalTriggerRowcounts) - 1])
+//@   ghost loop 2: ls.gidx[frame * 65536 + row - 1] := len(externalTriggerRowcounts) - 1
+//@   ghost loop 2: ls.gfr[len(externalTriggerRowcounts) - 1] := ite(RiseAt(ls, frame * 65536 + row - 1, nrows), frame, ls.gfr[len(externalTriggerRowcounts) - 1])
+//@   ghost loop 2: ls.grw[len(externalTriggerRowcounts) - 1] := ite(RiseAt(ls, frame * 65536 + row - 1, nrows), row - 1, ls.grw[len(externalTriggerRowcounts) - 1])
+//@   loop 1
+//@     invariant 0 <= frame && frame <= framesUsed && framesUsed == len(at(datacopies, datacopies.off)) && datacopies == buffersMsg.datacopies && nchan == len(datacopies) && nrows == ls.active[0].nrows && ncols == ls.active[0].ncols
+//@     invariant st: block != nil && fresh(block) && unchanged(ls.nextFrameNum, ls.active, ls.mixedRowCounts) && LBuffersOK(datacopies) && FirstCard(ls, nchan)
+//@     invariant first: firstFrameNum >= ls.nextFrameNum
+//@     invariant raw: forall p int, q int :: {at(at(datacopies, p), q)} datacopies.off <= p && p < datacopies.off + nchan ==> at(at(datacopies, p), q) == oldat(at(datacopies, p), q)
+//@     invariant trig: allocated(externalTriggerRowcounts) && (externalTriggerRowcounts.arr == 0 || fresh(externalTriggerRowcounts))
+//@     invariant levels: LevelsOK(ls, datacopies, nrows, ncols, framesUsed)
+//@     invariant last: ls.externalTriggerLastState == ite(frame > 0, ls.glv[(frame - 1) * 65536 + nrows - 1] == 1, old(ls.externalTriggerLastState))
+//@     invariant sound: TrigSound(ls, externalTriggerRowcounts, firstFrameNum, nrows, frame * 65536) && TrigOrdered(ls, len(externalTriggerRowcounts))
+//@     invariant complete: TrigComplete(ls, externalTriggerRowcounts, nrows, frame * 65536)
+//@   loop 2
+//@     invariant 0 <= frame && frame < framesUsed && 0 <= row && row <= nrows && framesUsed == len(at(datacopies, datacopies.off)) && datacopies == buffersMsg.datacopies && nchan == len(datacopies) && nrows == ls.active[0].nrows && ncols == ls.active[0].ncols
+//@     invariant st: block != nil && fresh(block) && unchanged(ls.nextFrameNum, ls.active, ls.mixedRowCounts) && LBuffersOK(datacopies) && FirstCard(ls, nchan)
+//@     invariant first: firstFrameNum >= ls.nextFrameNum
+//@     invariant raw: forall p int, q int :: {at(at(datacopies, p), q)} datacopies.off <= p && p < datacopies.off + nchan ==> at(at(datacopies, p), q) == oldat(at(datacopies, p), q)
+//@     invariant trig: allocated(externalTriggerRowcounts) && (externalTriggerRowcounts.arr == 0 || fresh(externalTriggerRowcounts))
+//@     invariant levels: LevelsOK(ls, datacopies, nrows, ncols, framesUsed)
+//@     invariant last: row < nrows ==> ls.externalTriggerLastState == LevelBefore(ls, frame * 65536 + row, nrows)
+//@     invariant lastend: row == nrows ==> ls.externalTriggerLastState == (ls.glv[frame * 65536 + nrows - 1] == 1)
+//@     invariant sound: TrigSound(ls, externalTriggerRowcounts, firstFrameNum, nrows, frame * 65536 + row) && TrigOrdered(ls, len(externalTriggerRowcounts))
+//@     invariant complete: TrigComplete(ls, externalTriggerRowcounts, nrows, frame * 65536 + row)
+//@     hint divmod: (frame * 65536 + row - 1) % 65536 == row - 1 && (frame * 65536 + row - 1) / 65536 == frame && 1 <= row && row <= nrows
+//@     hint level: ls.glv[frame * 65536 + row - 1] == ite((v / 2) % 2 == 1, 1, 0)
+//@     hint state: ls.externalTriggerLastState == (ls.glv[frame * 65536 + row - 1] == 1)
+//@     hint oldvals: forall j int :: {ls.gfr[j]} 0 <= j && j < len(externalTriggerRowcounts) - ite(RiseAt(ls, frame * 65536 + row - 1, nrows), 1, 0) ==> externalTriggerRowcounts[j] == mul(ls.gfr[j] + firstFrameNum, nrows) + ls.grw[j]
+//@     hint newwit: RiseAt(ls, frame * 65536 + row - 1, nrows) ==> ls.gfr[len(externalTriggerRowcounts) - 1] == frame && ls.grw[len(externalTriggerRowcounts) - 1] == row - 1
+//@     hint val: RiseAt(ls, frame * 65536 + row - 1, nrows) ==> len(externalTriggerRowcounts) >= 1 && externalTriggerRowcounts[len(externalTriggerRowcounts) - 1] == mul(frame + firstFrameNum, nrows) + row - 1
+//@     apply frameindex(row, nrows, 0, ncols) && mul_def(row, ncols) && mul_def(frame + firstFrameNum, nrows)
 
 // updateChanOrderMap (nested div/mod index arithmetic) is not under contract; the precondition OrderOK of
 // distributeData that it establishes, and that the table is the true geometry, are checked on the real code by a
